@@ -594,6 +594,8 @@ unique_ptr<DataTable> DataTable::read(istream& in, const string& sep, bool heade
     StringTokenizer st(line, sep, false, true);
     if (hasRowNames)
     {
+      if (st.getTokens().empty())
+        throw DimensionException("DataTable::read(...). A row has no column.", 0, nCol + 1);
       string rowName = *st.getTokens().begin();
       vector<string> row(st.getTokens().begin() + 1, st.getTokens().end());
       dt->addRow(rowName, row);
